@@ -65,20 +65,22 @@ type OpenCall struct {
 
 // StreamInfo records what happened to one reader handed out by the daemon.
 type StreamInfo struct {
-	ID             string `json:"id"`
-	OpenIdx        int    `json:"open_idx"`
-	Len            int    `json:"len"`
-	Frames         int    `json:"frames"`
-	Delivered      int    `json:"delivered"`
-	Reads          int    `json:"reads"`
-	ZeroReads      int    `json:"zero_reads"`
-	DataWithEOF    bool   `json:"data_with_eof"`
-	ErrWithData    bool   `json:"err_with_data,omitempty"`
-	EOFDelivered   bool   `json:"eof_delivered"`
-	ErrDelivered   bool   `json:"err_delivered"`
-	CancelObserved bool   `json:"cancel_observed"`
-	Closes         int    `json:"closes"`
-	ReadAfterClose int    `json:"read_after_close"`
+	ID          string `json:"id"`
+	OpenIdx     int    `json:"open_idx"`
+	Len         int    `json:"len"`
+	Frames      int    `json:"frames"`
+	Delivered   int    `json:"delivered"`
+	Reads       int    `json:"reads"`
+	ZeroReads   int    `json:"zero_reads"`
+	DataWithEOF bool   `json:"data_with_eof"`
+	ErrWithData bool   `json:"err_with_data,omitempty"`
+	// CloseErrDelivered: Close of this reader returned an (injected) error.
+	CloseErrDelivered bool `json:"close_err_delivered,omitempty"`
+	EOFDelivered      bool `json:"eof_delivered"`
+	ErrDelivered      bool `json:"err_delivered"`
+	CancelObserved    bool `json:"cancel_observed"`
+	Closes            int  `json:"closes"`
+	ReadAfterClose    int  `json:"read_after_close"`
 	// CutClass classifies the cut offset, if the stream carries a cut fault:
 	// boundary | header | hdr_body | body
 	CutClass string `json:"cut_class,omitempty"`
@@ -801,6 +803,7 @@ func (s *SimStream) Close() error {
 	for _, f := range d.faults {
 		if f.Kind == FaultCloseError && f.Container == s.Info.ID && (f.Open < 0 || f.Open == s.Info.OpenIdx) {
 			d.FaultsFired[FaultCloseError]++
+			s.Info.CloseErrDelivered = true
 			return fmt.Errorf("close %s: %w", s.Info.ID, ErrInjected)
 		}
 	}
